@@ -24,8 +24,10 @@ STYLES = {
     5: ('   ', '  ', '   ', '  '),  # everything, multiple
 }
 
-_NAME = re.compile(r'^[A-Za-z][A-Za-z0-9()*_]*$')
-_TERM = re.compile(r'^(\d+(?:\.\d+)?)?\s*([A-Za-z][A-Za-z0-9()*_]*)$')
+# a name starts with anything of the name alphabet but a digit (the statement: "letters, digits after the first
+# character, parentheses, asterisks and underscores"); the alphabets of C14 use a letter or an underscore first
+_NAME = re.compile(r'^[A-Za-z_][A-Za-z0-9()*_]*$')
+_TERM = re.compile(r'^(\d+(?:\.\d+)?)?\s*([A-Za-z_][A-Za-z0-9()*_]*)$')
 
 
 def valid_name(name):
